@@ -236,6 +236,56 @@ theorem stops_without_candidates (maxIter : Nat) (tol : Q) (timeUp : Nat → Boo
     (rest : List StepResult) : fitLoop maxIter tol timeUp level (StepResult.noCandidate :: rest) = level := by
   simp [fitLoop]
 
+/-! ### the loop as generated from `System.fit` -/
+
+/-- the end tests GENERATED from the loop body are the three the property names (iteration limit, tolerance, time) -/
+theorem generated_stop_is_reference (l m : Nat) (e t : Bool) : Gen.fitStop l m e t = (decide (l ≥ m) || e || t) := by
+  unfold Gen.fitStop; cases e <;> cases t <;> simp
+
+/-- the loop that the driver runs against `System.fit` (end tests generated from the source) is the reference loop -/
+theorem generated_loop_is_model (maxIter : Nat) (tol : Q) (timeUp : Nat → Bool) :
+    ∀ (steps : List StepResult) (level : Nat), fitLoopGen maxIter tol timeUp level steps = fitLoop maxIter tol timeUp level steps
+  | [], level => by simp [fitLoopGen, fitLoop]
+  | StepResult.noCandidate :: _, level => by simp [fitLoopGen, fitLoop]
+  | StepResult.activated err :: rest, level => by
+      unfold fitLoopGen fitLoop
+      simp only []
+      rw [generated_stop_is_reference, generated_loop_is_model maxIter tol timeUp rest (level + 1)]
+      by_cases h1 : level + 1 ≥ maxIter
+      · simp [h1]
+      · by_cases h2 : errBelow err tol = true
+        · simp [h1, h2]
+        · by_cases h3 : timeUp (level + 1) = true
+          · simp [h1, h2, h3]
+          · simp [h1, h2, h3]
+
+/-- the iteration limit of a call is relative to the history it starts from (generated from `max_iter = self.refine_level + max_iter`) -/
+theorem generated_limit_is_relative (level k : Nat) : Gen.fitLimit level k = level + k := rfl
+
+/-- an activation is recorded in the history before any end test can stop the loop (generated from the statement order) -/
+theorem history_append_precedes_every_stop : Gen.fitRecordsBeforeStop = true := rfl
+
+/-- **Training continued by a further call performs exactly the steps requested of THAT call**, whatever the length of the
+    history it starts from: if the next `k` steps all activate an index whose error is not below the tolerance and time does
+    not run out, a call `fit(max_iter = k)` on a history of `level` entries ends with `level + k` entries. -/
+theorem continued_fit_performs_requested_steps (k : Nat) (hk : 0 < k) (tol : Q) (timeUp : Nat → Bool)
+    (hT : ∀ n, timeUp n = false) (level : Nat) (steps : List StepResult) (hl : k ≤ steps.length)
+    (hs : ∀ s ∈ steps, ∃ err, s = StepResult.activated err ∧ errBelow err tol = false) :
+    fitCall k tol timeUp level steps = level + k := by
+  unfold fitCall
+  rw [generated_loop_is_model, generated_limit_is_relative]
+  exact steps_exact (level + k) tol timeUp hT steps level (by omega) (by omega) hs
+
+/-- … and never more than requested, and at least one (a call always makes one step when a candidate exists) -/
+theorem continued_fit_bounds (k : Nat) (hk : 0 < k) (tol : Q) (timeUp : Nat → Bool) (level : Nat) (steps : List StepResult) :
+    level ≤ fitCall k tol timeUp level steps ∧ fitCall k tol timeUp level steps ≤ level + k := by
+  unfold fitCall
+  rw [generated_loop_is_model, generated_limit_is_relative]
+  exact fitLoop_bounds (level + k) tol timeUp steps level (by omega)
+
+example : fitCall 2 (1/100) (fun _ => false) 5
+    [StepResult.activated (some (1/2)), StepResult.activated none, StepResult.activated (some 1)] = 7 := by decide +kernel
+
 /-! non-vacuity -/
 example : (choose [{ comp := "a", idx := [1, 0], delta := some (3/7), cost := 2 },
                    { comp := "b", idx := [0, 1], delta := none, cost := 1/2 },
